@@ -134,6 +134,13 @@ func GenConfig(r *kit.Rand, tier kit.Tier, o GenOpts) Config {
 	c.Lower = LowerCfg{Kind: []string{"ideal", "banked", "dram"}[lk], Count: r.PickInt(1, 1, 2, 4), FreqHz: freq(), PortBuf: buf()}
 	c.Lower.Interleave = maxBlock * uint64(r.PickInt(1, 1, 2, 64))
 
+	// one run in five: the lower memory's Top port takes many requests and lets
+	// one response out at a time, so that several expired transactions wait
+	// inside the controller for the port
+	if r.Chance(1, 5) {
+		c.Lower.PortBuf, c.Lower.TopOutBuf = r.PickInt(4, 16), 1
+	}
+
 	switch c.Lower.Kind {
 	case "ideal":
 		c.Lower.Latency = r.PickInt(1, 2, 5, 20, 100)
